@@ -90,8 +90,10 @@ class ConfigEngine(HistEngine):
                         k = line.split(None, 2)[1]
                         kinds[k] = kinds.get(k, 0) + 1
             self._kinds = kinds
-            m = re.search(r"config harness: input distribution.*?\n((?:  .*\n)+)", out)
-            self._dist = m.group(1).rstrip().split("\n") if m else []
+            try:
+                self._dist = [l for l in open(trace + ".dist").read().split("\n")[1:] if l.strip()]
+            except OSError:
+                self._dist = []
         return rc, out, trace
 
     def run_driver(self, trace, extra=None):
